@@ -154,10 +154,12 @@ def optDecAttr (c : Codec) (v : Val) : Option Inst :=
   | .extant => some .none
   | v => (c.decAttr v).map .some
 
-/-- `FirstOf<EmptyBodyRecognizer, Mapped<T::BodyRec>>`: an empty body without attributes is `None`. -/
+/-- `FirstOf<EmptyBodyRecognizer, Mapped<T::BodyRec>>`: a body without attributes that is empty, or holds the
+single item `Extant` (how a delegated `None` is written; accepted since the repair of C16-F1), is `None`. -/
 def optDecBody (c : Codec) (attrs : List Attr) (items : List Item) : Option Inst :=
   match attrs, items with
   | [], [] => some .none
+  | [], [(none, .extant)] => some .none
   | _, _ => (c.decBody attrs items).map .some
 
 def optCodec (c : Codec) : Codec where
